@@ -296,6 +296,15 @@ class FakePool:
     def __exit__(self, *a):
         pass
 
+    def close(self):
+        pass
+
+    def terminate(self):
+        pass
+
+    def join(self):
+        pass
+
 
 def convention_worker(case):
     n_test, n_trial, path = case
